@@ -227,6 +227,10 @@ func newHostRunnerAlt(c *sexp.S, alt bool) (*hostRunner, error) {
 		h.log = append(h.log, "boom("+obs.Values(a)+")")
 		return nil, fmt.Errorf("boom")
 	})
+	dr.AddFunction("crash", func(a []*variable.Value) (*variable.Value, error) {
+		h.log = append(h.log, "crash("+obs.Values(a)+")")
+		panic("the host function crash panics")
+	})
 	dr.AddFunction("nr", func(a []*variable.Value) (*variable.Value, error) {
 		h.log = append(h.log, "nr("+obs.Values(a)+")")
 		return nil, nil
